@@ -22,11 +22,44 @@ use std::collections::HashMap;
 use std::panic::{catch_unwind, AssertUnwindSafe};
 use std::sync::atomic::Ordering::Relaxed;
 
-fn opt<T>(o: Option<T>) -> u8 {
-    if o.is_some() {
-        0
-    } else {
-        1
+/// VERIF_TOUCH=1 (memcheck and Miri stages): every returned value is walked through its `Debug` rendering into a sink that
+/// branches on each byte, so that a value built from uninitialised memory is *used* - and therefore reported - even though the
+/// batch does not dump results. No allocation: the allocation window of the case is unaffected.
+pub static TOUCH: std::sync::atomic::AtomicBool = std::sync::atomic::AtomicBool::new(false);
+
+struct Sink {
+    h: u64,
+    n: u64,
+}
+
+impl std::fmt::Write for Sink {
+    fn write_str(&mut self, s: &str) -> std::fmt::Result {
+        for b in s.bytes() {
+            self.h = self.h.wrapping_mul(0x100000001b3) ^ b as u64;
+            if b == b'7' {
+                self.n += 1;
+            }
+        }
+        Ok(())
+    }
+}
+
+pub fn touch<T: std::fmt::Debug>(v: &T) {
+    if TOUCH.load(Relaxed) {
+        use std::fmt::Write;
+        let mut s = Sink { h: 0xcbf29ce484222325, n: 0 };
+        let _ = write!(s, "{:?}", v);
+        std::hint::black_box((s.h, s.n));
+    }
+}
+
+fn opt<T: std::fmt::Debug>(o: Option<T>) -> u8 {
+    match o {
+        Some(v) => {
+            touch(&v);
+            0
+        }
+        None => 1,
     }
 }
 
@@ -52,7 +85,7 @@ fn run_kind(kind: &str, buf: &[u8], aux: &Aux, case: usize) -> u8 {
             let s = String::from_utf8_lossy(buf);
             let k = || if kind == "plist.game" { physis::patchlist::PatchListType::Game } else { physis::patchlist::PatchListType::Boot };
             let p = physis::patchlist::PatchList::from_string(k(), &s);
-            let _ = p.to_string(k());
+            touch(&p.to_string(k()));
             0
         }
         "mdl" => opt(physis::model::MDL::from_existing(buf)),
@@ -69,17 +102,18 @@ fn run_kind(kind: &str, buf: &[u8], aux: &Aux, case: usize) -> u8 {
                 for n in s.nodes.iter().take(8) {
                     let _ = s.find_node(n.selector);
                 }
+                touch(&s);
                 0
             }
             None => 1,
         },
-        "tex" => opt(physis::tex::Texture::from_existing(buf)),
+        "tex" => opt(physis::tex::Texture::from_existing(buf).map(|t| (t.width, t.height, t.depth, t.rgba))),
         "exh" => match physis::exh::EXH::from_existing(buf) {
             Some(h) => {
                 // a damaged header together with an intact data file
                 if let Some(d) = &aux.exd {
                     for id in aux.ids.iter() {
-                        let _ = d.read_row(&h, *id);
+                        touch(&d.read_row(&h, *id));
                     }
                 }
                 0
@@ -90,7 +124,7 @@ fn run_kind(kind: &str, buf: &[u8], aux: &Aux, case: usize) -> u8 {
             Some(d) => {
                 if let Some(h) = &aux.exh {
                     for id in aux.ids.iter() {
-                        let _ = d.read_row(h, *id);
+                        touch(&d.read_row(h, *id));
                     }
                 }
                 0
@@ -102,7 +136,7 @@ fn run_kind(kind: &str, buf: &[u8], aux: &Aux, case: usize) -> u8 {
             Some(p) => {
                 for a in aux.ids.iter() {
                     for b in aux.ids.iter() {
-                        let _ = p.get_deform_matrices(*a as u16, *b as u16);
+                        touch(&p.get_deform_matrices(*a as u16, *b as u16));
                     }
                 }
                 0
@@ -112,7 +146,7 @@ fn run_kind(kind: &str, buf: &[u8], aux: &Aux, case: usize) -> u8 {
         "cmp" => opt(physis::cmp::CMP::from_existing(buf)),
         "tera" => opt(physis::tera::Terrain::from_existing(buf).map(|t| t.write_to_buffer())),
         "stm" => opt(physis::stm::StainingTemplate::from_existing(buf)),
-        "dic" => opt(physis::dic::Dictionary::from_existing(buf)),
+        "dic" => opt(physis::dic::Dictionary::from_existing(buf).map(|d| d.words)),
         "lgb" => opt(physis::layer::LayerGroup::from_existing(buf)),
         "avfx" => opt(physis::avfx::Avfx::from_existing(buf)),
         "sqdb" => opt(physis::sqpack::SqPackDatabase::from_existing(buf)),
@@ -138,8 +172,8 @@ fn run_kind(kind: &str, buf: &[u8], aux: &Aux, case: usize) -> u8 {
             match physis::sqpack::SqPackIndex::from_existing(&p) {
                 Some(i) => {
                     for q in aux.paths.iter() {
-                        let _ = i.exists(q);
-                        let _ = i.find_entry(q);
+                        touch(&i.exists(q));
+                        touch(&i.find_entry(q));
                     }
                     0
                 }
@@ -153,7 +187,8 @@ fn run_kind(kind: &str, buf: &[u8], aux: &Aux, case: usize) -> u8 {
                 Some(mut d) => {
                     let mut any = 1;
                     for o in aux.offsets.iter() {
-                        if d.read_from_offset(*o).is_some() {
+                        if let Some(b) = d.read_from_offset(*o) {
+                            touch(&b);
                             any = 0;
                         }
                     }
